@@ -478,4 +478,3 @@ func ref(b built) (coinOK bool, assetsOK bool, detail string) {
 	}
 	return cons.Cmp(prod) == 0, assetsOK, fmt.Sprintf("consumed coin %s produced coin %s; consumed assets %v produced assets %v", cons, prod, ca, pa)
 }
-
